@@ -2,6 +2,8 @@
 
 from copy import deepcopy
 
+import torch
+
 from torch.nn import ModuleList
 
 from gpytorch.likelihoods import Likelihood
@@ -21,57 +23,65 @@ class LikelihoodList(Likelihood):
         super().__init__()
         self.likelihoods = ModuleList(likelihoods)
 
+    def _per_member(self, noise):
+        # one entry per member; a single tensor is the noise of every member
+        return [noise] * len(self.likelihoods) if torch.is_tensor(noise) else noise
+
     def expected_log_prob(self, *args, **kwargs):
-        if "noise" in kwargs:
-            noise = kwargs.pop("noise")
+        if kwargs.get("noise") is not None:
+            noise = self._per_member(kwargs.pop("noise"))
             # if noise kwarg is passed, assume it's an iterable of noise tensors
             return [
                 likelihood.expected_log_prob(*args_, **{**kwargs, "noise": noise_})
                 for likelihood, args_, noise_ in length_safe_zip(self.likelihoods, _get_tuple_args_(*args), noise)
             ]
         else:
+            kwargs.pop("noise", None)
             return [
                 likelihood.expected_log_prob(*args_, **kwargs)
                 for likelihood, args_ in length_safe_zip(self.likelihoods, _get_tuple_args_(*args))
             ]
 
     def forward(self, *args, **kwargs):
-        if "noise" in kwargs:
-            noise = kwargs.pop("noise")
+        if kwargs.get("noise") is not None:
+            noise = self._per_member(kwargs.pop("noise"))
             # if noise kwarg is passed, assume it's an iterable of noise tensors
             return [
                 likelihood.forward(*args_, **{**kwargs, "noise": noise_})
                 for likelihood, args_, noise_ in length_safe_zip(self.likelihoods, _get_tuple_args_(*args), noise)
             ]
         else:
+            kwargs.pop("noise", None)
             return [
                 likelihood.forward(*args_, **kwargs)
                 for likelihood, args_ in length_safe_zip(self.likelihoods, _get_tuple_args_(*args))
             ]
 
     def log_marginal(self, *args, **kwargs):
-        if "noise" in kwargs:
-            noise = kwargs.pop("noise")
+        if kwargs.get("noise") is not None:
+            noise = self._per_member(kwargs.pop("noise"))
             # if noise kwarg is passed, assume it's an iterable of noise tensors
             return [
                 likelihood.log_marginal(*args_, **{**kwargs, "noise": noise_})
                 for likelihood, args_, noise_ in length_safe_zip(self.likelihoods, _get_tuple_args_(*args), noise)
             ]
         else:
+            kwargs.pop("noise", None)
             return [
                 likelihood.log_marginal(*args_, **kwargs)
                 for likelihood, args_ in length_safe_zip(self.likelihoods, _get_tuple_args_(*args))
             ]
 
     def marginal(self, *args, **kwargs):
-        if "noise" in kwargs:
-            noise = kwargs.pop("noise")
+        if kwargs.get("noise") is not None:
+            noise = self._per_member(kwargs.pop("noise"))
             # if noise kwarg is passed, assume it's an iterable of noise tensors
             return [
                 likelihood.marginal(*args_, **{**kwargs, "noise": noise_})
                 for likelihood, args_, noise_ in length_safe_zip(self.likelihoods, _get_tuple_args_(*args), noise)
             ]
         else:
+            kwargs.pop("noise", None)
             return [
                 likelihood.marginal(*args_, **kwargs)
                 for likelihood, args_ in length_safe_zip(self.likelihoods, _get_tuple_args_(*args))
@@ -99,22 +109,23 @@ class LikelihoodList(Likelihood):
         return fantasy_likelihood
 
     def pyro_sample_output(self, *args, **kwargs):
-        if "noise" in kwargs:
-            noise = kwargs.pop("noise")
+        if kwargs.get("noise") is not None:
+            noise = self._per_member(kwargs.pop("noise"))
             # if noise kwarg is passed, assume it's an iterable of noise tensors
             return [
                 likelihood.pyro_sample_output(*args_, **{**kwargs, "noise": noise_})
                 for likelihood, args_, noise_ in length_safe_zip(self.likelihoods, _get_tuple_args_(*args), noise)
             ]
         else:
+            kwargs.pop("noise", None)
             return [
                 likelihood.pyro_sample_output(*args_, **kwargs)
                 for likelihood, args_ in length_safe_zip(self.likelihoods, _get_tuple_args_(*args))
             ]
 
     def __call__(self, *args, **kwargs):
-        if "noise" in kwargs:
-            noise = kwargs.pop("noise")
+        if kwargs.get("noise") is not None:
+            noise = self._per_member(kwargs.pop("noise"))
             # if noise kwarg is passed, assume it's an iterable of noise tensors
             return [
                 likelihood(*args_, **{**kwargs, "noise": noise_})
